@@ -538,7 +538,12 @@ class CatalogWriter(AbstractContextManager, HandlesDataChunk):
             raise ValueError(f"patch with ID {patch_id} contains no data")
 
         patch_ids = np.fromiter(self.writers.keys(), dtype=np.int16)
-        np.sort(patch_ids).tofile(self.cache_directory / PATCH_INFO_FILE)
+        # the file marks the cache as complete, it must not exist under its
+        # final name before the list has been written completely
+        info_file = self.cache_directory / PATCH_INFO_FILE
+        temp_file = info_file.with_suffix(".tmp")
+        np.sort(patch_ids).tofile(temp_file)
+        temp_file.replace(info_file)
 
 
 def write_patches_unthreaded(
